@@ -41,6 +41,8 @@ _MS = MethodSet([
     dict(pos=[("x", ("raw", "list"), False)], body="return (6, call_next(x[0]))"),     # call_next with another argument type
     dict(pos=[("x", ("K", 0), False)], kw=[("k", ("obj",), True), ("j", ("obj",), True)], body="return (7, k, j)"),   # optional keyword-only parameters
     dict(pos=[("x", ("obj",), False)], kw=[("k", ("obj",), True)], body="return (8, k)"),
+    dict(pos=[("x", ("Ex", ("K", 0)), False)], body="return 9"),        # a class-check type (Exactly[K0]): one handler object asked by both threads
+    dict(pos=[("x", ("SS", ("K", 0)), False)], body="return 10"),
 ])
 
 
@@ -379,6 +381,8 @@ SCEN = [
     # optional keyword-only arguments: each call's own keywords reach its method (two first calls; two calls on a built function)
     dict(name="keywords-first-first", methods=[7, 8], a=["callkw", 0, False, {"k": "A"}], b=["callkw", 0, False, {"k": "B", "j": "J"}]),
     dict(name="keywords-built", methods=[7, 8], warm=[[3, False]], a=["callkw", 0, False, {"k": "A", "j": "I"}], b=["callkw", 3, False, {"k": "B"}]),
+    # two cache misses for DIFFERENT classes on a class-check annotation
+    dict(name="miss-miss-classcheck", methods=[9, 10, 2], warm=[[3, False]], a=["call", 0, False], b=["call", 2, False]),
     dict(name="first-vs-call_next-other-type", methods=[0, 1, 2, 6], a=["call", 0, False], b=["call", 5, False]),
 ]
 
@@ -411,7 +415,7 @@ def count_lines(shape):
 
 def gen_shapes(tier, seed):
     shapes = []
-    scen = SCEN if tier != "quick" else [SCEN[i] for i in (0, 1, 4, 5, 6, 8, 9, 10)]
+    scen = SCEN if tier != "quick" else [SCEN[i] for i in (0, 1, 4, 5, 6, 8, 9, 10, 11)]
     for s in scen:
         n = count_lines(s)
         chunks = 12 if tier == "quick" else 32
@@ -461,7 +465,7 @@ def main(tier, seed):
         PID, tier, seed, t0, results, level="model_checking",
         bounds=dict(threads=2, preemptions="1 (every executed ovld line of thread A is a switch point; B then runs to completion)"
                     + ("" if tier == "quick" else "; 2 on a reduced set of first switch points (every 200th line, 2 scenarios), second switch at every line of B"),
-                    scenarios=[s["name"] for s in (SCEN if tier != "quick" else [SCEN[i] for i in (0, 1, 4, 5, 6, 8, 9, 10)])] + [w["name"] for w in WAITER],
+                    scenarios=[s["name"] for s in (SCEN if tier != "quick" else [SCEN[i] for i in (0, 1, 4, 5, 6, 8, 9, 10, 11)])] + [w["name"] for w in WAITER],
                     lock_handover="B is started while A builds (fixed line 300 of the build) and waits for the build lock; after A has released it, A is "
                                   "pre-empted at every %d-th of its remaining lines (rest of the first call, then a recursive call) and B, now owning the lock, at every "
                                   "%d-th of its lines; then A runs to completion, then B" % ((10, 10) if tier == "quick" else (3, 3)),
